@@ -8,7 +8,7 @@
 // plus the admission rule itself on 13 (definition, line) pairs.
 // Also: the same in follow mode (a non-admitted line shows nothing); worlds with array columns (all elements NULL), JSON
 // columns (explicit nulls, empty containers; a NOT NULL column after a JSON column) and a NOT NULL month-name TIMESTAMP; follow mode
-// from FollowFileIterator on with blank lines of spaces / tabs / CR.
+// from FollowFileIterator on with blank lines of spaces / tabs / CR; noise and half lines at the boundaries of several input files.
 include!("verif_grid_common.rs");
 include!("verif_grid_qcommon.rs");
 
@@ -79,7 +79,7 @@ fn verif_grid() {
                 statements: ["SELECT xs FROM t", "SELECT COUNT(*) AS n FROM t", "SELECT DISTINCT xs FROM t", "SELECT xs FROM t LIMIT 2", "SELECT array_length(xs) AS n FROM t"].iter().map(|s| s.to_string()).collect() },
         World { name: "json", def: "CREATE TABLE t({ .msg } => msg TEXT, { .tags[0] } => tag TEXT, { .n } => n INT);".to_owned(),
                 pool: vec![r#"{"msg": "hello", "n": 1}"#, r#"{"tags": ["x"], "n": 2}"#, r#"{"msg": "", "tags": []}"#],
-                noise: vec!["", r#"{"msg": null}"#, r#"{"msg": null, "tags": [null], "n": null}"#, "{}", "[]", "null", r#"{"other": 1}"#, "not json", r#"{"msg": 5, "n": "7"}"#],
+                noise: vec!["", r#"{"msg": null}"#, r#"{"msg": null, "tags": [null], "n": null}"#, "{}", "[]", "null", r#"{"other": 1}"#, "not json", r#"{"msg": 5, "n": "7"}"#, r#"{"msg": "x"} trailing"#, r#"{"msg": "x"}{"msg": "y"}"#, r#"{"msg": "x"}}"#, r#"{"msg": "x"} {"n": 2}"#],
                 statements: ["SELECT msg, tag, n FROM t", "SELECT COUNT(*) AS c FROM t", "SELECT DISTINCT msg FROM t", "SELECT msg FROM t LIMIT 2", "SELECT msg, COUNT(*) AS c FROM t GROUP BY msg"].iter().map(|s| s.to_string()).collect() },
         World { name: "json-nn", def: "CREATE TABLE t({ .ts } => ts INT, { .account } => account TEXT NOT NULL, { .status } => status INT);".to_owned(),
                 pool: vec![r#"{"ts": 1, "account": "ann", "status": 200}"#, r#"{"account": "bob"}"#, r#"{"ts": 3, "account": "ann"}"#],
@@ -157,6 +157,19 @@ fn verif_grid() {
                     if got == reference { Ok(()) } else { Err(format!("{} in follow mode over a file with the lines {:?} (line end {:?}): the reader delivered {:?} and the engine showed {:?}; without the blank lines it shows {:?}", st, input, terminator, delivered, got, reference)) }
                 });
             }
+        }
+    }
+    // several input files: a last line without line feed ends with its file - noise at either side of a file boundary changes nothing and
+    // two non-admitted halves never make a row
+    for (si, st) in ["SELECT k, v FROM t", "SELECT COUNT(*) AS n, SUM(v) AS s FROM t", "SELECT DISTINCT k FROM t", "SELECT k FROM t LIMIT 2"].iter().enumerate() {
+        for (fi, (files, clean)) in [(vec![b("k=b v=2\nk=a"), b(" v=1\nk=c v=7\n")], vec!["k=b v=2", "k=c v=7"]), (vec![b("k=a v=1"), b("garbage\nk=b v=1\n")], vec!["k=a v=1", "k=b v=1"]),
+                                      (vec![b("k=a v=1\ngarbage"), b("k=b v=1\n")], vec!["k=a v=1", "k=b v=1"]), (vec![b("k=a v=1\nk="), b("b v=1\nk=c v=7"), b("\nk=a v=2\n")], vec!["k=a v=1", "k=c v=7", "k=a v=2"]),
+                                      (vec![b("k=a v=1"), b(""), b("k=b v=1")], vec!["k=a v=1", "k=b v=1"])].into_iter().enumerate() {
+            g.case(&format!("file-boundary-f{}-s{}", fi, si), move || {
+                let reference = q(T, st, &clean);
+                let got = run_opts(T, st, &files, json_opts());
+                if same_output(&reference, &got) { Ok(()) } else { Err(format!("{} over the files {:?} gives {:?}; the admitted lines are {:?}, which alone give {:?}", st, files.iter().map(|f| show(f)).collect::<Vec<_>>(), got, clean, reference)) }
+            });
         }
     }
     // the joined side: non-admitted lines in the joined file change nothing
